@@ -256,6 +256,9 @@ class Tr(object):
             # if hasattr(X, '____conn__'): conn = X.____conn__; return conn.sync_request(consts.HANDLE_Y, A)  [else: ...]
             if isinstance(st.test, ast.Call) and u(st.test.func) == "hasattr" and len(st.test.args) == 2 and u(st.test.args[1]) == "'____conn__'":
                 X = st.test.args[0]
+                on_type = "false"
+                if isinstance(X, ast.Call) and u(X.func) == "type" and len(X.args) == 1 and not X.keywords:
+                    X, on_type = X.args[0], "true"      # the test is made on the object's type
                 b = st.body
                 if not (len(b) == 2 and u(b[0]) == "conn = %s.____conn__" % u(X) and isinstance(b[1], ast.Return) and isinstance(b[1].value, ast.Call)
                         and u(b[1].value.func) == "conn.sync_request" and len(b[1].value.args) == 2 and not b[1].value.keywords):
@@ -267,7 +270,7 @@ class Tr(object):
                     other = B(st.orelse)
                 else:
                     other = B(rest)
-                return ("XIfHasConn", self.expr(X, env, depth), fwd, other)
+                return ("XIfHasConn", on_type, self.expr(X, env, depth), fwd, other)
             # the exc_info triple of _handle_ctxexit
             if u(st) == CTX_IF:
                 env2 = dict(env)
